@@ -2,8 +2,17 @@
 
 Inputs: (a) valid generated specs after 1-3 token-level edits, (b) every string over a token alphabet
 up to a length after a namespace header plus random longer ones, (c) the code blocks of
-docs/lang_ref.rst.  Everything goes through `specs_to_ir` itself (fresh ParserFactory per call).
-A sample goes through `stone.cli.main` to check `path:line: error: message` and exit status 1.
+docs/lang_ref.rst, (d) one generated spec cut at every token, (e) specs nested beyond the recursion limit.
+Everything goes through `specs_to_ir` itself (fresh ParserFactory per call).
+
+The command line (`stone.cli.main`, in-process, throw-away backend) gets (1) a random sample of mutated specs and
+(2) representatives of every *shape* of spec error the fuzzing has produced - line number present / absent, path
+present / absent / which of several files, message with `%`, braces, non-ASCII or several lines - and of every
+distinct message wording: the handler that prints an InvalidSpec has to cope with every value its three fields can
+take, and the shapes that are rare in ordinary use (no line: the text ends where the grammar needs more; no path:
+nesting beyond the recursion limit) are exactly the ones a sample of mutated specs does not reach.  Oracle: exit
+status 1, nothing escapes, and stderr holds `path:line: error: message` with the path, line and message of the
+InvalidSpec that `specs_to_ir` raises for the same files.
 """
 import concurrent.futures
 import io
@@ -103,7 +112,11 @@ def classify(specs, limit_s=20):
             bad.append('lineno-type')
         if path is not None and path not in paths:
             bad.append('foreign-path')
-        return {'k': 'spec', 'bad': bad}
+        return {'k': 'spec', 'bad': bad,
+                'err': {'msg': msg if isinstance(msg, str) else repr(msg),
+                        'line': lineno if isinstance(lineno, int) and not isinstance(lineno, bool) else
+                        (None if lineno is None else repr(lineno)),
+                        'path': path if path is None or isinstance(path, str) else repr(path)}}
     except _Timeout as e:
         return {'k': 'crash', 'exc': 'Timeout', 'where': e.where, 'clock': e.clock, 'limit_s': limit_s}
     except RecursionError as e:
@@ -221,6 +234,87 @@ def lang_ref_snippets():
     return out
 
 
+def truncations(text):
+    """(d) the text cut before every token, as it is and closed with a newline (a file that is still being written)"""
+    toks = TOKEN_RE.findall(text)
+    seen = set()
+    for i in range(1, len(toks)):
+        head = ''.join(toks[:i])
+        for t in (head, head + '\n'):
+            if t not in seen:
+                seen.add(t)
+                yield t
+
+
+def nested_texts(depth):
+    """(e) every construct the IR generator follows recursively, nested / chained `depth` times"""
+    d = depth
+    yield 'namespace deep\n\nalias A = ' + 'List(' * d + 'String' + ')' * d + '\n'
+    yield 'namespace deep\n\nalias A = ' + 'Map(String, ' * d + 'String' + ')' * d + '\n'
+    yield 'namespace deep\n\nstruct S\n    f ' + 'List(' * d + 'Int32' + ')' * d + '\n'
+    yield 'namespace deep\n\n' + ''.join('alias A%d = A%d\n' % (i, i + 1) for i in range(d)) + 'alias A%d = String\n' % d
+    yield 'namespace deep\n\n' + ''.join('alias A%d = List(A%d)\n' % (i, i + 1) for i in range(d)) + 'alias A%d = String\n' % d
+    yield ('namespace deep\n\n' + ''.join('struct S%d extends S%d\n    f%d String\n\n' % (i, i + 1, i) for i in range(d)) +
+           'struct S%d\n    g String\n' % d)
+    yield ('namespace deep\n\n' + ''.join('struct S%d\n    f S%d\n    example default\n        f = default\n\n' % (i, i + 1)
+                                          for i in range(d)) +
+           'struct S%d\n    g String\n    example default\n        g = "x"\n' % d)
+
+
+# ------------------------------------------------------------------------------------------------
+# shapes of a spec error (what the code that prints one has to cope with)
+# ------------------------------------------------------------------------------------------------
+def error_shape(err, paths):
+    """`err` = the fields of an InvalidSpec as `classify` returns them; `paths` = the input paths in order."""
+    line, path, msg = err['line'], err['path'], err['msg']
+    if path is None:
+        where = 'none'
+    elif len(paths) == 1:
+        where = 'only'
+    else:
+        where = 'first' if path == paths[0] else 'later' if path in paths else 'foreign'
+    feats = [f for f, on in (('pct', '%' in msg), ('brace', '{' in msg or '}' in msg), ('nonascii', not msg.isascii()),
+                             ('lines', '\n' in msg or '\r' in msg), ('backslash', '\\' in msg)) if on]
+    return 'line=%s path=%s msg=%s' % ('none' if line is None else 'int' if isinstance(line, int) else 'other',
+                                       where, '+'.join(feats) or 'plain')
+
+
+def message_wording(msg):
+    """the message without what it quotes: one key per raise site, roughly"""
+    return re.sub(r"'[^'\n]*'|\"[^\"\n]*\"|`[^`\n]*`|-?\d+(\.\d+)?", '_', msg)[:90]
+
+
+def pick_representatives(cases, origins, verdicts, cap, per_shape=4):
+    """Out of the fuzzed cases that ended in a spec error: `per_shape` of every shape (rare shapes first), then one
+    of every (shape, wording) not yet taken, up to `cap`. Smallest inputs first within a key. Deterministic."""
+    by_shape, by_word = {}, {}
+    for i, v in enumerate(verdicts):
+        if v.get('k') != 'spec' or 'err' not in v:
+            continue
+        size = sum(len(t) for _p, t in cases[i])
+        if size > 40000:               # the command-line pass writes the files: keep it cheap
+            continue
+        sh = error_shape(v['err'], [p for p, _t in cases[i]])
+        by_shape.setdefault(sh, []).append((size, i))
+        by_word.setdefault((sh, message_wording(v['err']['msg'])), []).append((size, i))
+    picked, taken = [], set()
+    for sh in sorted(by_shape, key=lambda k: (len(by_shape[k]), k)):
+        for _size, i in sorted(by_shape[sh])[:per_shape]:
+            if i not in taken and len(picked) < cap:
+                taken.add(i)
+                picked.append(i)
+    for key in sorted(by_word, key=lambda k: (len(by_word[k]), k)):
+        if len(picked) >= cap:
+            break
+        _size, i = min(by_word[key])
+        if i not in taken:
+            taken.add(i)
+            picked.append(i)
+    return [{'specs': [list(s) for s in cases[i]], 'origin': origins[i],
+             'shape': error_shape(verdicts[i]['err'], [p for p, _t in cases[i]])} for i in picked], \
+        {sh: len(v) for sh, v in by_shape.items()}, len(by_word)
+
+
 # ------------------------------------------------------------------------------------------------
 # shrinking
 # ------------------------------------------------------------------------------------------------
@@ -274,9 +368,12 @@ def judge(ck, specs, verdict, origin, do_shrink=True):
                          {'specs': specs, 'origin': origin, 'verdict': verdict})
 
 
-def suite_fuzz(ck, n_models, n_mut_per_model, short_len, n_random_short):
+def suite_fuzz(ck, n_models, n_mut_per_model, short_len, n_random_short, n_cut=None, cli_cap=None):
+    """Returns the representatives of every shape / wording of spec error seen (for `suite_cli`)."""
     from harness import specgen
     rng = ck.rng
+    n_cut = ck.scale(700, 8000) if n_cut is None else n_cut
+    cli_cap = ck.scale(160, 1200) if cli_cap is None else cli_cap
     cases, origins, limits = [], [], {}
     # corpus first
     cdir = os.path.join(core.VERIF, 'corpus', 'C03')
@@ -293,6 +390,11 @@ def suite_fuzz(ck, n_models, n_mut_per_model, short_len, n_random_short):
         for text in (sn, 'namespace docs\n\n' + sn):
             cases.append([('snippet.stone', text)])
             origins.append('lang_ref')
+    # (e) nesting / chains beyond the recursion limit (and a depth the frontend copes with)
+    for depth in (150, 3000):
+        for text in nested_texts(depth):
+            cases.append([('deep.stone', text)])
+            origins.append('deep')
     # (a) mutated valid specs
     rendered = []
     for i in range(n_models):
@@ -306,6 +408,19 @@ def suite_fuzz(ck, n_models, n_mut_per_model, short_len, n_random_short):
             files2[k][1] = mutate_text(rng, files2[k][1], other)
             cases.append([tuple(f) for f in files2])
             origins.append('mutated')
+    # (d) a generated spec cut at every token: the last file of a set (the files before it stay whole), and a
+    # file alone; at most n_cut cuts, spread evenly
+    cuts = []
+    for files in sorted(rendered, key=lambda fs: sum(len(t) for _p, t in fs))[:max(2, n_models // 10)]:
+        files = [tuple(f) for f in files]
+        k = rng.randrange(len(files))
+        for t in truncations(files[k][1]):
+            cuts.append([(files[k][0], t)] if rng.random() < 0.5 else files[:k] + files[k + 1:] + [(files[k][0], t)])
+    if len(cuts) > n_cut:
+        cuts = [cuts[(j * len(cuts)) // n_cut] for j in range(n_cut)]
+    for c in cuts:
+        cases.append(c)
+        origins.append('cut')
     # (b) short token strings: exhaustive up to short_len, random beyond
     for text in short_texts(short_len):
         cases.append([('s.stone', text)])
@@ -329,68 +444,246 @@ def suite_fuzz(ck, n_models, n_mut_per_model, short_len, n_random_short):
         if v['k'] != 'crash' or first:
             judge(ck, [list(s) for s in specs], v, origin, do_shrink=True)
         if len(ck.samples) < 5 and origin == 'mutated' and v['k'] != 'ok':
-            ck.sample({'origin': origin, 'verdict': v, 'text_head': specs[0][1][:200]})
+            ck.sample({'origin': origin, 'verdict': {k: v[k] for k in v if k != 'err'}, 'text_head': specs[0][1][:200]})
     ck.stats['crash_sites'] = {('%s@%s' % k): n for k, n in seen_sites.items()}
+    picked, shapes, n_wordings = pick_representatives(cases, origins, verdicts, cli_cap)
+    for sh, n in shapes.items():
+        ck.hist('fe.fuzz.error_shape', sh, n)
+    ck.stats['spec_error_shapes'] = len(shapes)
+    ck.stats['spec_error_wordings'] = n_wordings
+    return picked
 
 
-def suite_cli(ck, n):
-    """A sample through stone.cli.main in-process with a throw-away backend: a bad spec is answered
-    with `path:line: error: message` on stderr and exit status 1."""
+# ------------------------------------------------------------------------------------------------
+# the command line
+# ------------------------------------------------------------------------------------------------
+NOP_BACKEND = ('from stone.backend import CodeBackend\n\n\nclass NopBackend(CodeBackend):\n'
+               '    def generate(self, api):\n        pass\n')
+
+
+class _Cli:
+    """stone.cli.main in-process on spec files written to one scratch directory (files are unlinked after each
+    case, the directory is reused)."""
+
+    def __init__(self):
+        self.dir = core.scratch('stone-verif-cli-')
+        self.backend = os.path.join(self.dir, 'nop.stoneg.py')
+        with open(self.backend, 'w') as fh:
+            fh.write(NOP_BACKEND)
+        self.specdir = os.path.join(self.dir, 'specs')
+        os.makedirs(self.specdir)
+
+    def run(self, files, limit_s=20):
+        """files: [(name, text)]. Returns (direct verdict of specs_to_ir on the files as the command line reads
+        them, exit code | 'exc:<class>', stderr text, traceback text | None)."""
+        import contextlib
+        import stone.cli
+        names, paths = set(), []
+        for k, (p, t) in enumerate(files):
+            nm = os.path.basename(p)
+            if not nm.endswith('.stone') or nm in names or nm == '-':
+                nm = 'f%d.stone' % k
+            names.add(nm)
+            fp = os.path.join(self.specdir, nm)
+            with open(fp, 'w', encoding='utf-8', newline='') as fh:
+                fh.write(t)
+            paths.append(fp)
+        try:
+            # the command line reads the files in text mode (universal newlines: a lone '\r' arrives as '\n'); the
+            # in-process reference must see the same text
+            as_read = []
+            for fp in paths:
+                with open(fp, encoding='utf-8') as fh:
+                    as_read.append(fh.read())
+            direct = classify(list(zip(paths, as_read)), limit_s=limit_s)
+            err = io.StringIO()
+            code, tb = None, None
+            old_argv = sys.argv
+            try:
+                sys.argv = ['stone', self.backend, os.path.join(self.dir, 'out')] + paths
+                with contextlib.redirect_stderr(err), contextlib.redirect_stdout(io.StringIO()):
+                    try:
+                        stone.cli.main()
+                        code = 0
+                    except SystemExit as e:
+                        code = e.code if isinstance(e.code, int) else (0 if e.code is None else 1)
+                    except Exception as e:  # noqa: BLE001 - the class of what escapes is the verdict
+                        code = 'exc:' + type(e).__name__
+                        frames = traceback.extract_tb(e.__traceback__)
+                        tb = {'text': ''.join(traceback.format_exception(type(e), e, e.__traceback__))[-1500:],
+                              'exc': type(e).__name__, 'where': _where(e.__traceback__),
+                              # raised below specs_to_ir = it escapes the frontend; otherwise it is the command line's own
+                              'in_frontend': any(fr.name == 'specs_to_ir' and
+                                                 fr.filename.replace('\\', '/').endswith('frontend/frontend.py')
+                                                 for fr in frames)}
+            finally:
+                sys.argv = old_argv
+            return direct, code, err.getvalue(), tb, (paths, as_read)
+        finally:
+            for fp in paths:
+                try:
+                    os.unlink(fp)
+                except OSError:
+                    pass
+
+
+def answer_problems(err, code, text):
+    """What is wrong with the command line's answer to the InvalidSpec `err` (fields as in `classify`): list of
+    tags, empty when the answer is `path:line: error: message` + status 1.  What stands in place of a line or a
+    path the error does not have is not judged."""
+    bad = []
+    if isinstance(code, str):
+        return ['escape']
+    if code != 1:
+        bad.append('status')
+    path_re = re.escape(err['path']) if err['path'] is not None else r'[^\n:]*'
+    line_re = str(err['line']) if isinstance(err['line'], int) else r'[^\n:]*'
+    if re.search(r'(?:^|\n)%s:%s: error: %s(?:\n|$)' % (path_re, line_re, re.escape(err['msg'])), text) is None:
+        if re.search(r'(?:^|\n)[^\n]*: error: ', text) is None:
+            bad.append('no-error-line')
+        elif re.search(r'(?:^|\n)%s:%s: error: ' % (path_re, line_re), text) is None:
+            bad.append('wrong-location')
+        else:
+            bad.append('wrong-message')
+    return bad
+
+
+def judge_cli(ck, cli, files, origin, shape=None):
+    """Returns (direct verdict, exit code | 'exc:<class>', stderr text, comparable): `comparable` = the answer can be
+    compared with the model's (`fe.report`)."""
+    direct, code, text, tb, (paths, as_read) = cli.run(files)
+    ck.hist('fe.cli.outcome', '%s/%s' % (direct['k'], code))
+    comparable = direct['k'] == 'spec' and 'err' in direct and not direct['bad']
+    if direct['k'] == 'crash' or (direct['k'] == 'spec' and direct['bad']):
+        judge(ck, [list(z) for z in zip(paths, as_read)], direct, origin, do_shrink=False)
+    if tb is not None and tb['in_frontend']:
+        # the frontend itself let it through when the command line called it (for specs nested beyond the recursion
+        # limit the outcome depends on the depth of the caller's stack): the same failure as in `judge`
+        comparable = False
+        if direct['k'] != 'crash':
+            ck.failing_input('C03: %s escapes the frontend (%s)' % (tb['exc'], tb['where']),
+                             {'kind': 'escape', 'exc': tb['exc'], 'where': tb['where']},
+                             {'specs': [list(f) for f in files], 'via': 'cli', 'origin': origin, 'code': code,
+                              'traceback': tb['text']})
+    elif direct['k'] == 'spec' and 'err' in direct:
+        sh = error_shape(direct['err'], paths)
+        ck.hist('fe.cli.error_shape', sh)
+        bad = answer_problems(direct['err'], code, text)
+        if bad == ['wrong-message']:
+            # a message that differs between two runs of the frontend itself (an address, an unordered set) cannot
+            # be compared
+            again = classify(list(zip(paths, as_read)))
+            if again.get('k') != 'spec' or again['err']['msg'] != direct['err']['msg']:
+                bad = []
+                comparable = False
+        if bad:
+            ck.failing_input('C03: the command line does not answer a bad spec with path:line: error: message and status 1 '
+                             '(%s; spec error with %s)' % (','.join(bad), sh),
+                             {'kind': 'cli', 'code': str(code), 'bad': bad,
+                              'line': 'none' if direct['err']['line'] is None else 'int',
+                              'path': 'none' if direct['err']['path'] is None else 'given'},
+                             {'specs': [list(f) for f in files], 'via': 'cli', 'origin': origin, 'shape': sh,
+                              'spec_error': direct['err'], 'stderr': text[-600:], 'code': code, 'traceback': tb and tb['text']})
+    elif direct['k'] == 'ok' and code != 0:
+        ck.failing_input('C03: the command line fails on a spec the frontend accepts', {'kind': 'cli-ok', 'code': str(code)},
+                         {'specs': [list(f) for f in files], 'via': 'cli', 'origin': origin, 'stderr': text[-600:],
+                          'code': code, 'traceback': tb and tb['text']})
+    return direct, code, text, comparable
+
+
+CRASH_CLASS = {'typeError': 'TypeError', 'valueError': 'ValueError', 'indexError': 'IndexError'}
+
+
+def handler_operation():
+    """The format operation of the `except InvalidSpec` handler of the tree under test, by the translator's own
+    extractor (translator/ex_clireport.py): sent with every `fe.report` request."""
+    tdir = os.path.join(core.VERIF, 'translator')
+    if tdir not in sys.path:
+        sys.path.insert(0, tdir)
+    import ex_clireport
+    style, tpl, fields, _status, _stream = ex_clireport.handler_operation(core.REPO)
+    return {'style': style, 'template': tpl, 'fields': fields}
+
+
+def has_line(text, line):
+    return re.search(r'(?:^|\n)%s(?:\n|$)' % re.escape(line), text) is not None
+
+
+def suite_cli(ck, n, picked=()):
+    """Through stone.cli.main in-process with a throw-away backend: a bad spec is answered with
+    `path:line: error: message` on stderr and exit status 1.  `picked`: the representatives of every shape and
+    wording of spec error that `suite_fuzz` has seen; plus `n` freshly mutated specs."""
     from harness import specgen
-    import contextlib
-    import stone.cli
     rng = ck.rng
-    d = core.scratch('stone-verif-cli-')
-    be = os.path.join(d, 'nop.stoneg.py')
-    with open(be, 'w') as fh:
-        fh.write('from stone.backend import CodeBackend\n\n\nclass NopBackend(CodeBackend):\n    def generate(self, api):\n        pass\n')
+    cli = _Cli()
+    answered = []
+    for rep in picked:
+        files = [tuple(f) for f in rep['specs']]
+        direct, code, text, comparable = judge_cli(ck, cli, files, 'picked:' + rep['origin'], rep.get('shape'))
+        ck.case(('cli', tuple(t for _p, t in files)), nontrivial=direct['k'] != 'ok')
+        if comparable:
+            answered.append((direct['err'], code, text))
     for i in range(n):
         model = specgen.gen_model(rng, 'small')
         files = specgen.render(model, None)
         k = rng.randrange(len(files))
         files = [list(f) for f in files]
         files[k][1] = mutate_text(rng, files[k][1])
-        sd = os.path.join(d, 'case%d' % i)
-        os.makedirs(sd, exist_ok=True)
-        paths = []
-        for p, t in files:
-            fp = os.path.join(sd, os.path.basename(p))
-            with open(fp, 'w', encoding='utf-8') as fh:
-                fh.write(t)
-            paths.append(fp)
-        # the command line reads the files in text mode (universal newlines: a lone '\r' arrives as '\n'); the
-        # in-process reference must see the same text
-        as_read = []
-        for fp in paths:
-            with open(fp, encoding='utf-8') as fh:
-                as_read.append(fh.read())
-        direct = classify(list(zip(paths, as_read)))
-        argv = ['stone', be, os.path.join(sd, 'out')] + paths
-        err = io.StringIO()
-        code = None
-        old_argv = sys.argv
-        try:
-            sys.argv = argv
-            with contextlib.redirect_stderr(err), contextlib.redirect_stdout(io.StringIO()):
-                try:
-                    stone.cli.main()
-                    code = 0
-                except SystemExit as e:
-                    code = e.code if isinstance(e.code, int) else 1
-                except Exception as e:  # noqa: BLE001
-                    code = 'exc:' + type(e).__name__
-        finally:
-            sys.argv = old_argv
+        direct, code, text, comparable = judge_cli(ck, cli, [tuple(f) for f in files], 'mutated')
         ck.case(('cli', tuple(t for _p, t in files)), nontrivial=direct['k'] != 'ok')
-        ck.hist('fe.cli.outcome', '%s/%s' % (direct['k'], code))
-        text = err.getvalue()
-        if direct['k'] == 'spec':
-            ok = code == 1 and re.search(r'(^|\n)[^\n]*:\d+: error: \S', text) is not None or \
-                (code == 1 and re.search(r'error: \S', text) is not None)
-            if not ok:
-                ck.failing_input('C03: the command line does not answer a bad spec with path:line: error: message and status 1',
-                                 {'kind': 'cli', 'code': str(code)},
-                                 {'specs': files, 'stderr': text[-600:], 'code': code})
-        elif direct['k'] == 'ok' and code != 0:
-            ck.failing_input('C03: the command line fails on a spec the frontend accepts', {'kind': 'cli-ok', 'code': str(code)},
-                             {'specs': files, 'stderr': text[-600:], 'code': code})
+        if comparable:
+            answered.append((direct['err'], code, text))
+    ck.stats['cli_cases'] = len(picked) + n
+    # the model of the handler (Model/CliReport.lean on the format operation the translator copied from the tree under
+    # test) against what the command line printed
+    op = handler_operation()
+    ck.stats['cli_handler_operation'] = op
+    replies = ck.driver([dict(op, op='fe.report', path=e['path'], line=e['line'], msg=e['msg']) for e, _c, _t in answered])
+    for (e, code, text), r in zip(answered, replies):
+        if 'ok' in r:
+            real = {'code': code, 'prints_model_line': has_line(text, r['ok'])}
+            same = code == 1 and real['prints_model_line']
+        elif 'crash' in r:
+            real = {'code': code}
+            same = code == 'exc:' + CRASH_CLASS.get(r['crash'], '?')
+        else:
+            ck.hist('fe.report.uncompared', 'unmodelled' if r.get('unmodelled') else 'protocol')
+            if not r.get('unmodelled'):
+                ck.disagree('fe.report', e, {'code': code}, r)
+            continue
+        if same:
+            ck.agree('fe.report')
+        else:
+            real['stderr'] = text[-300:]
+            ck.disagree('fe.report', e, real, r)
+
+
+def suite_format(ck, n):
+    """The interpreter of Python's two format operations (Model/CliReport.lean `run`) against Python's own, on random
+    templates and arguments of the three kinds a field of an InvalidSpec can hold."""
+    rng = ck.rng
+    parts = ['a', ':', ' ', ': error: ', 'é', '{}', '{}', '{{', '}}', '{', '}', '{0}', '{!r}', '{:>4}', '{x}', '%s', '%s', '%d', '%i',
+             '%%', '%', '%r', '%5d', '%(x)s', '% d', 's', 'd']
+    vals = [None, None, 0, 1, -7, 12345678901234567890123, 'a.stone', '', 'x y', '%s', '{}', '%', '{', 'é\n', "it's"]
+    reqs, cases = [], []
+    for _ in range(n):
+        style = rng.choice(['format', 'percent'])
+        tpl = ''.join(rng.choice(parts) for _ in range(rng.randint(0, 6)))
+        args = [rng.choice(vals) for _ in range(rng.choice([0, 1, 2, 3, 3, 3, 4]))]
+        cases.append((style, tpl, args))
+        reqs.append({'op': 'fe.format', 'style': style, 'template': tpl, 'args': args})
+    for (style, tpl, args), r in zip(cases, ck.driver(reqs)):
+        try:
+            real = {'ok': tpl.format(*args) if style == 'format' else tpl % tuple(args)}
+        except (TypeError, ValueError, IndexError, KeyError) as e:
+            real = {'crash': type(e).__name__}
+        ck.case(('fe.format', style, tpl, tuple(map(repr, args))), nontrivial=True)
+        if r.get('unmodelled'):
+            ck.hist('fe.format.outcome', 'unmodelled')
+            continue
+        model = {'ok': r['ok']} if 'ok' in r else {'crash': CRASH_CLASS.get(r.get('crash'), repr(r))}
+        ck.hist('fe.format.outcome', '%s/%s' % (style, 'ok' if 'ok' in real else real['crash']))
+        if model == real:
+            ck.agree('fe.format')
+        else:
+            ck.disagree('fe.format', {'style': style, 'template': tpl, 'args': args}, real, model)
